@@ -2,7 +2,7 @@
 # seeded_reeval.sh <seeded-id> <PROP[,PROP…]> [tier] — re-run checks against a stored seeded break and merge the outcome into its meta.json
 set -u
 ID=$1; PROPS=$2; TIER=${3:-quick}; D=/verif/seeded/$ID
-/verif/scripts/seeded_eval.sh "$D/patch.diff" "$ID" "$PROPS" "$TIER" > "$D/reeval.log" 2>&1
+BASE=$(python3 -c "import json;print(json.load(open('$D/meta.json')).get('base_commit','HEAD'))") /verif/scripts/seeded_eval.sh "$D/patch.diff" "$ID" "$PROPS" "$TIER" > "$D/reeval.log" 2>&1
 cut -c1-300 "$D/reeval.log"
 python3 - "$D" <<'PY'
 import json,sys,re
